@@ -1,164 +1,70 @@
 import Percival.Driver.Loop
-import Percival.Model.Pbkdf2
-import Percival.Model.Crc32c
-import Percival.Spec.Pbkdf2
-import Percival.Spec.Crc32c
+import Percival.Model.HashStep
 /-!
 `pmodel hash`: line protocol for alg/sha256.c, sha1.c, md5.c, crc32c.c (driver code, C01).
 
     init a | upd a <hex> | fin a | buf a <hex> | addcnt a <k>        a ∈ {sha256, sha1, md5}
     hmac a <key> <msg> | hmacinit a <key> | hmacupd a <hex> | hmacfin a
-    pbkdf2 <P> <S> <c> <dkLen>
+    pbkdf2 <P> <S> <c> <dkLen> | pbkdf2sum <P> <S> <c> <dkLen>
     crc <align> <hex> | crcinit | crcupd <align> <hex> | crcfin
+    big <alg> <n> <cut> <align>
 
-Every answer is `L1 | L2`.  **L1 is computed by the `Spec` function** on the bytes fed so far
-(`Spec.Sha256.hash`, `Spec.Hmac.hmac…`, `Spec.Pbkdf2.pbkdf2Sha256`, `Spec.Crc32c.crc32c`);
-`addcnt a k` (white box) adds `k` blocks to the
-bit count so that the counters' carry paths are reached; afterwards `fin` answers `forged` at L1.
-L2 is the concrete model's context (`st=… cnt=… buf=<buf[0..r)>`) or, for digests, the concrete
-model's result `d=…`.
+Thin by construction: `parse` (text → `Model.HashStep.Op`), `Model.HashStep.stepOp`, `render`
+(`Model.HashStep.Out` → text).  What is computed — the `Spec` value (L1) of the bytes recorded, the model's
+context and digest (L2), the bookkeeping — is in `Model/HashStep.lean`; `C01.exec_digest_l1_eq_l2` is about it.
 -/
 namespace Percival.Driver.Hash
-open Percival.Model Percival.Driver
+open Percival.Model Percival.Driver Percival.Model.HashStep
 open Percival.Spec (Bytes)
+
+/-! ## text → op -/
+
+def parseAlg : String → Option AlgId
+  | "sha256" => some .sha256
+  | "sha1" => some .sha1
+  | "md5" => some .md5
+  | _ => none
+
+def parseSlotOp : String → List String → Option SlotOp
+  | "init", [] => some .init
+  | "addcnt", [k] => do pure (.addcnt (← k.toNat?))
+  | "upd", [x] => do pure (.upd (← bytesOfHex x))
+  | "fin", [] => some .fin
+  | "buf", [x] => do pure (.buf (← bytesOfHex x))
+  | "hmac", [k, x] => do pure (.hmac (← bytesOfHex k) (← bytesOfHex x))
+  | "hmacinit", [k] => do pure (.hmacinit (← bytesOfHex k))
+  | "hmacupd", [x] => do pure (.hmacupd (← bytesOfHex x))
+  | "hmacfin", [] => some .hmacfin
+  | _, _ => none
+
+def parse : List String → Option Op
+  | ["pbkdf2sum", P, S, c, dk] => do pure (.pbkdf2sum (← bytesOfHex P) (← bytesOfHex S) (← c.toNat?) (← dk.toNat?))
+  | ["pbkdf2", P, S, c, dk] => do pure (.pbkdf2 (← bytesOfHex P) (← bytesOfHex S) (← c.toNat?) (← dk.toNat?))
+  | ["big", alg, n, cut, _al] =>
+    -- the alignment of the buffer does not exist in the model
+    if ["sha256", "sha1", "md5", "crc"].contains alg then do pure (.big (← n.toNat?) (← cut.toNat?)) else none
+  | ["crc", _, x] => do pure (.crc (← bytesOfHex x))
+  | ["crcinit"] => some .crcinit
+  | ["crcupd", _, x] => do pure (.crcupd (← bytesOfHex x))
+  | ["crcfin"] => some .crcfin
+  | op :: alg :: args => do pure (.slot (← parseAlg alg) (← parseSlotOp op args))
+  | _ => none
+
+/-! ## answer → text -/
 
 def hex64 (n : Nat) : String := hexOfNat32 (n / 2^32) ++ hexOfNat32 (n % 2^32)
 
 def showWords (ws : List UInt32) : String := ",".intercalate (ws.map fun w => hexOfNat32 w.toNat)
 
-/-- what the driver needs of one of the three hashes -/
-structure Ops where
-  σ : Type
-  init : σ
-  update : σ → Bytes → σ
-  final : σ → Bytes
-  showCtx : σ → String
-  /-- white-box: pretend `k` more 64-byte blocks were counted (leaves `r`, state and buf alone) -/
-  addCnt : σ → Nat → σ
-  spec : Bytes → Bytes
-  hmacInit : Bytes → Option (σ × σ)
-  hmacFinal : σ × σ → Option Bytes
-  hmacSpec : Bytes → Bytes → Bytes
+def showCnt : Cnt → String
+  | .w64 c => hex64 (UInt64.toNat c)
+  | .w32x2 c0 c1 => hexOfNat32 c0.toNat ++ "," ++ hexOfNat32 c1.toNat
 
-def showCtxGen (st : List UInt32) (cnt : String) (buf : Bytes) (r : Nat) : String :=
-  s!"st={showWords st} cnt={cnt} buf={hexOfBytes (buf.take r)}"
-
-def show256 (c : Sha256.Ctx) : String :=
-  showCtxGen c.state.toList (hex64 (UInt64.toNat c.count)) c.buf (Hash.cnt64.r c.count)
-
-def showCount2 (c : Hash.Count2) : String := hexOfNat32 c.c0.toNat ++ "," ++ hexOfNat32 c.c1.toNat
-
-def show1 (c : Sha1.Ctx) : String :=
-  showCtxGen c.state.toList (showCount2 c.count) c.buf (Hash.cntSha1.r c.count)
-
-def show5 (c : Md5.Ctx) : String :=
-  showCtxGen c.state.toList (showCount2 c.count) c.buf (Hash.cntMd5.r c.count)
-
-def add64 (c : Sha256.Ctx) (k : Nat) : Sha256.Ctx :=
-  let old : UInt64 := c.count
-  let new : UInt64 := old + UInt64.ofNat (k * 512)
-  { c with count := new }
-
-def splitHiLo (v : Nat) : UInt32 × UInt32 := (UInt32.ofNat (v / 2^32), UInt32.ofNat v)
-
-def add1 (c : Sha1.Ctx) (k : Nat) : Sha1.Ctx :=
-  let (hi, lo) := splitHiLo (c.count.c0.toNat * 2^32 + c.count.c1.toNat + k * 512)
-  { c with count := ⟨hi, lo⟩ }
-
-def add5 (c : Md5.Ctx) (k : Nat) : Md5.Ctx :=
-  let (hi, lo) := splitHiLo (c.count.c1.toNat * 2^32 + c.count.c0.toNat + k * 512)
-  { c with count := ⟨lo, hi⟩ }
-
-def hmacOps (h : Hmac.HashFns) :
-    (Bytes → Option (Hash.Ctx h.alg × Hash.Ctx h.alg)) × (Hash.Ctx h.alg × Hash.Ctx h.alg → Option Bytes) :=
-  (fun K => (Hmac.init h K).map fun c => (c.ictx, c.octx),
-   fun io => Hmac.final h { ictx := io.1, octx := io.2 })
-
-def ops256 : Ops :=
-  { σ := Sha256.Ctx, init := Sha256.init, update := Sha256.update, final := Sha256.final, showCtx := show256, addCnt := add64,
-    spec := Percival.Spec.Sha256.hash, hmacInit := (hmacOps Hmac.sha256).1, hmacFinal := (hmacOps Hmac.sha256).2,
-    hmacSpec := Percival.Spec.Hmac.hmacSha256 }
-def ops1 : Ops :=
-  { σ := Sha1.Ctx, init := Sha1.init, update := Sha1.update, final := Sha1.final, showCtx := show1, addCnt := add1,
-    spec := Percival.Spec.Sha1.hash, hmacInit := (hmacOps Hmac.sha1).1, hmacFinal := (hmacOps Hmac.sha1).2,
-    hmacSpec := Percival.Spec.Hmac.hmacSha1 }
-def ops5 : Ops :=
-  { σ := Md5.Ctx, init := Md5.init, update := Md5.update, final := Md5.final, showCtx := show5, addCnt := add5,
-    spec := Percival.Spec.Md5.hash, hmacInit := (hmacOps Hmac.md5).1, hmacFinal := (hmacOps Hmac.md5).2,
-    hmacSpec := Percival.Spec.Hmac.hmacMd5 }
-
-/-- per algorithm: the streaming context with the bytes fed so far; the HMAC contexts with key and bytes -/
-structure Slot (o : Ops) where
-  h : Option (o.σ × Bytes) := none
-  /-- the count was changed by `addcnt`: the Spec no longer applies to this context -/
-  forged : Bool := false
-  m : Option ((o.σ × o.σ) × Bytes × Bytes) := none
-
-structure St where
-  s256 : Slot ops256 := {}
-  s1 : Slot ops1 := {}
-  s5 : Slot ops5 := {}
-  crc : Option (UInt32 × Bytes) := none
+def showCtx (v : CtxView) : String := s!"st={showWords v.st} cnt={showCnt v.cnt} buf={hexOfBytes v.buf}"
 
 def digestLine (l1 : Bytes) (l2 : Option Bytes) : String :=
   let d := match l2 with | some b => hexOfBytes b | none => "none"
   s!"{hexOfBytes l1} | d={d}"
-
-def showH (o : Ops) (io : o.σ × o.σ) : String := s!"i:{o.showCtx io.1} o:{o.showCtx io.2}"
-
-/-- ops on one algorithm's slot -/
-def stepSlot (o : Ops) (s : Slot o) (op : String) (args : List String) : Slot o × String :=
-  match op, args with
-  | "init", [] => ({ s with h := some (o.init, []), forged := false }, s!"ok | {o.showCtx o.init}")
-  | "addcnt", [k] =>
-    match s.h, k.toNat? with
-    | some (c, msg), some k =>
-      let c' := o.addCnt c k
-      ({ s with h := some (c', msg), forged := true }, s!"ok | {o.showCtx c'}")
-    | _, _ => (s, "skip")
-  | "upd", [x] =>
-    match s.h, bytesOfHex x with
-    | some (c, msg), some b =>
-      let c' := o.update c b
-      ({ s with h := some (c', msg ++ b) }, s!"ok | {o.showCtx c'}")
-    | _, _ => (s, "skip")
-  | "fin", [] =>
-    match s.h with
-    | some (c, msg) =>
-      if s.forged then ({ s with h := none }, s!"forged | d={hexOfBytes (o.final c)}")
-      else ({ s with h := none }, digestLine (o.spec msg) (some (o.final c)))
-    | none => (s, "skip")
-  | "buf", [x] =>
-    match bytesOfHex x with
-    | some b => (s, digestLine (o.spec b) (some (o.final (o.update o.init b))))
-    | none => (s, "bad-op")
-  | "hmac", [k, x] =>
-    match bytesOfHex k, bytesOfHex x with
-    | some k, some b =>
-      let r := (o.hmacInit k).bind fun io => o.hmacFinal (o.update io.1 b, io.2)
-      (s, digestLine (o.hmacSpec k b) r)
-    | _, _ => (s, "bad-op")
-  | "hmacinit", [k] =>
-    match bytesOfHex k with
-    | some k =>
-      match o.hmacInit k with
-      | some io => ({ s with m := some (io, k, []) }, s!"ok | {showH o io}")
-      | none => ({ s with m := none }, "ok | none")
-    | none => (s, "bad-op")
-  | "hmacupd", [x] =>
-    match s.m, bytesOfHex x with
-    | some (io, k, msg), some b =>
-      let io' := (o.update io.1 b, io.2)
-      ({ s with m := some (io', k, msg ++ b) }, s!"ok | {showH o io'}")
-    | _, _ => (s, "skip")
-  | "hmacfin", [] =>
-    match s.m with
-    | some (io, k, msg) => ({ s with m := none }, digestLine (o.hmacSpec k msg) (o.hmacFinal io))
-    | none => (s, "skip")
-  | _, _ => (s, "bad-op")
-
-def crcLine (l1 : Bytes) (s : UInt32) : String :=
-  s!"{hexOfBytes l1} | s={hexOfNat32 s.toNat} d={hexOfBytes (Crc32c.final s)}"
 
 def fnv1a (bs : List UInt8) : UInt64 :=
   bs.foldl (fun h b => (h ^^^ b.toUInt64) * 0x100000001b3) 0xcbf29ce484222325
@@ -166,53 +72,27 @@ def fnv1a (bs : List UInt8) : UInt64 :=
 def hex64u (x : UInt64) : String :=
   String.ofList ((List.range 16).map fun i => hexDigit ((x.toNat >>> (4 * (15 - i))) % 16))
 
+/-- a long value is printed as length, FNV-1a of all bytes, and the last 64 bytes -/
 def summary (b : Bytes) : String :=
   let n := b.length
   s!"len={n} fnv={hex64u (fnv1a b)} tail={hexOfBytes (b.drop (n - 64))}"
 
+def render : Out → String
+  | .ctx v => s!"ok | {showCtx v}"
+  | .hctx i o => s!"ok | i:{showCtx i} o:{showCtx o}"
+  | .hnone => "ok | none"
+  | .skip => "skip"
+  | .forged d => s!"forged | d={hexOfBytes d}"
+  | .digest l1 l2 => digestLine l1 l2
+  | .sum spec => s!"{summary spec} | same"
+  | .same n => s!"same {n}"
+  | .crc l1 s l2 => s!"{hexOfBytes l1} | s={hexOfNat32 s.toNat} d={hexOfBytes l2}"
+  | .crcState s => s!"ok | s={hexOfNat32 s.toNat}"
+
 def step (st : St) (toks : List String) : St × String :=
-  match toks with
-  | ["pbkdf2sum", P, S, c, dk] =>
-    match bytesOfHex P, bytesOfHex S, c.toNat?, dk.toNat? with
-    | some P, some S, some c, some dk =>
-      -- long outputs: the Spec only (the C-shaped model rewrites its whole output list per block, quadratic)
-      let spec := Percival.Spec.Pbkdf2.pbkdf2Sha256 P S c dk
-      (st, s!"{summary spec} | same")
-    | _, _, _, _ => (st, "bad-op")
-  | ["pbkdf2", P, S, c, dk] =>
-    match bytesOfHex P, bytesOfHex S, c.toNat?, dk.toNat? with
-    | some P, some S, some c, some dk =>
-      (st, digestLine (Percival.Spec.Pbkdf2.pbkdf2Sha256 P S c dk) (Pbkdf2.pbkdf2 P S c dk))
-    | _, _, _, _ => (st, "bad-op")
-  | ["big", alg, n, cut, _al] =>
-    -- a message far beyond what the model can run, hashed by the implementation in three different partitions
-    -- (one call / two calls / 1 MiB pieces): by `C01.*_stream_eq_spec` (any partition = the Spec's value, which
-    -- does not depend on the partition) the only admissible answer is that the three results agree.
-    match n.toNat?, cut.toNat? with
-    | some n, some cut =>
-      if ["sha256", "sha1", "md5", "crc"].contains alg && cut ≤ n && n ≤ 2^32 + 2^20 then (st, s!"same {n}") else (st, "skip")
-    | _, _ => (st, "bad-op")
-  | ["crc", _, x] =>
-    match bytesOfHex x with
-    | some b =>
-      let s := Crc32c.update Crc32c.init b
-      (st, crcLine (Percival.Spec.Crc32c.crc32c b) s)
-    | none => (st, "bad-op")
-  | ["crcinit"] => ({ st with crc := some (Crc32c.init, []) }, s!"ok | s={hexOfNat32 Crc32c.init.toNat}")
-  | ["crcupd", _, x] =>
-    match st.crc, bytesOfHex x with
-    | some (s, data), some b =>
-      let s' := Crc32c.update s b
-      ({ st with crc := some (s', data ++ b) }, s!"ok | s={hexOfNat32 s'.toNat}")
-    | _, _ => (st, "skip")
-  | ["crcfin"] =>
-    match st.crc with
-    | some (s, data) => (st, crcLine (Percival.Spec.Crc32c.crc32c data) s)
-    | none => (st, "skip")
-  | op :: "sha256" :: args => let (s, out) := stepSlot ops256 st.s256 op args; ({ st with s256 := s }, out)
-  | op :: "sha1" :: args => let (s, out) := stepSlot ops1 st.s1 op args; ({ st with s1 := s }, out)
-  | op :: "md5" :: args => let (s, out) := stepSlot ops5 st.s5 op args; ({ st with s5 := s }, out)
-  | _ => (st, "bad-op")
+  match parse toks with
+  | some op => let (s', o) := stepOp st op; (s', render o)
+  | none => (st, "bad-op")
 
 def main (_args : List String) : IO UInt32 := loop ({} : St) step
 
